@@ -61,7 +61,7 @@ BOUNDS = {"quick": {"orders_per_case": "all n! (n <= 6); generated adjacent pair
           "thorough": {"orders_per_case": "all n! (n <= 6)", "hash_seeds": 64, "generated_cases": "substrings + 9x9 kinds x 7 glues + same-text + substitutes",
                        "inside_set_orders": "all n! per set built via set() in the obfuscator modules (n <= 5)", "max_lines": 5, "line_kinds": 6, "clean_content_configs": 60, "clean_file_configs": 5,
                        "provider_configs": 4, "spec_declarations": "2 no_redact x 3 no_obfuscate x 7 spec kinds, contents <= 3 lines"}}
-CAP_S = {"quick": 120, "thorough": 1200}
+CAP_S = {"quick": 300, "thorough": 2400}
 
 CLAUSE_DET = "determinism:one-output-over-iteration-orders"
 WHERE = "insights/cleaner/__init__.py:143"
